@@ -96,6 +96,8 @@ def ellipsis_mechanism(o1: str, o2: str) -> str | None:
     lead = len(re.findall(r"(?m)^" + _PFX + r"\.\.\.", o1))
     trail = len(re.findall(r"(?m)\.\.\.[ \t]*\n" + _PFX + r"\\", o1))
     new = o2.count("…") - o1.count("…")
+    if new <= 0:
+        return None  # the next pass converted nothing: whatever changed, it is not one of the listed conversions
     if new <= lead:
         return "ellipsis-at-line-start"
     if new <= lead + trail:
